@@ -1302,7 +1302,9 @@ func call(n *node) {
 			val := make([]reflect.Value, len(values)+1)
 			val[0] = value(f)
 			for i, v := range values {
-				val[i+1] = v(f)
+				// The arguments of a deferred call are evaluated at the defer
+				// statement: keep a copy, not a reference to the frame slot.
+				val[i+1] = copyValue(v(f))
 			}
 			f.deferred = append([][]reflect.Value{val}, f.deferred...)
 			return tnext
@@ -1435,6 +1437,16 @@ func call(n *node) {
 		}
 		return tnext
 	}
+}
+
+// copyValue returns a copy of v detached from the storage v refers to.
+func copyValue(v reflect.Value) reflect.Value {
+	if !v.IsValid() || !v.CanAddr() {
+		return v
+	}
+	c := reflect.New(v.Type()).Elem()
+	c.Set(v)
+	return c
 }
 
 func getFrame(f *frame, l int) *frame {
@@ -1579,7 +1591,7 @@ func callBin(n *node) {
 			val := make([]reflect.Value, l+1)
 			val[0] = value(f)
 			for i, v := range values {
-				val[i+1] = getBinValue(getMapType, v, f)
+				val[i+1] = copyValue(getBinValue(getMapType, v, f))
 			}
 			f.deferred = append([][]reflect.Value{val}, f.deferred...)
 			return tnext
